@@ -31,11 +31,16 @@ def apply_write(g, model, addr, data, ctxinfo):
     case = {'prior_seed': ctxinfo.get('prior_seed'), 'history': ctxinfo.get('history'),
             'addr': addr, 'data': bytes(data), 'origin': ctxinfo.get('origin', 'inplace')}
     overflow = addr + len(data) > END
+    label_before = bytes(g.label._data) if getattr(g, 'label', None) is not None else None
     try:
         g.write_cart_data(ctxinfo.get('wrap', bytes)(data), addr)
         raised = None
     except Exception as e:  # noqa
         raised = e
+    label_after = bytes(g.label._data) if getattr(g, 'label', None) is not None else None
+    if label_after != label_before:
+        raise Violation('write of %d bytes at 0x%x changed the cart\'s label image, which no cart address maps to'
+                        % (len(data), addr), case, 'label-changed')
     after_regions = cartgen.region_datas(g)
     sizes = [len(r) for r in after_regions]
     after = b''.join(after_regions)
@@ -82,7 +87,7 @@ def nontrivial(labs):
     return 'empty' not in labs and bool(labs)
 
 
-ORIGINS = ('inplace', 'replaced', 'from_p8', 'from_png')
+ORIGINS = ('inplace', 'replaced', 'from_p8', 'from_png', 'from_p8_empty_sections')
 _label_rows = None
 
 
@@ -94,7 +99,12 @@ def game_from(mem, origin):
     import io
     from vlib import reffmt, refpng
     if origin == 'inplace':
-        return cartgen.make_game(mem), bytes(mem)
+        # make_empty_game() as it comes (with its blank label image), regions filled in place
+        from pico8.game import game as game_mod
+        g = game_mod.Game.make_empty_game()
+        for (_n, lo, hi), sec in zip(cartgen.REGIONS, (g.gfx, g.map, g.gff, g.music, g.sfx)):
+            sec._data[:] = mem[lo:hi]
+        return g, bytes(mem)
     if origin == 'replaced':
         from pico8.game import game as game_mod
         from pico8.gfx.gfx import Gfx
@@ -109,6 +119,19 @@ def game_from(mem, origin):
         g.music = Music.from_bytes(bytearray(mem[0x3100:0x3200]), version=8)
         g.sfx = Sfx.from_bytes(bytearray(mem[0x3200:0x4300]), version=8)
         return g, bytes(mem)
+    if origin == 'from_p8_empty_sections':
+        # a .p8 whose gff, map and music sections are empty: written without them (as PICO-8 does) or with their header
+        # lines but no rows; every region must still come out at full size
+        from pico8.game.formatter.p8 import P8Formatter
+        m2 = bytearray(mem)
+        m2[0x2000:0x3000] = bytes(0x1000)
+        m2[0x3000:0x3100] = bytes(0x100)
+        m2[0x3100:0x3200] = b'\x41\x42\x43\x44' * 64
+        if m2[0] % 2:
+            m2[0x0000:0x2000] = bytes(0x2000)
+        text = reffmt.write_p8(8, b'x=1\n', bytes(m2), elide=('headers' if m2[0x3200] % 2 else True))
+        g = P8Formatter.from_file(io.BytesIO(text))
+        return g, bytes(m2)
     if origin == 'from_p8':
         from pico8.game.formatter.p8 import P8Formatter
         loaded = mem[:0x3100] + reffmt.music_mask(mem[0x3100:0x3200]) + mem[0x3200:]
@@ -204,7 +227,7 @@ def part_boundary(ctx):
         prior_seed, dseed = v
         for k, (s, e) in enumerate(pairs):
             data = expand(dseed + bytes([s & 255, e & 255]), e - s)
-            origin = 'inplace' if k % 5 else ORIGINS[1 + (k // 5 + dseed[0]) % 3]
+            origin = 'inplace' if k % 5 else ORIGINS[1 + (k // 5 + dseed[0]) % 4]
             one_case(ctx, prior_seed, s, data, bytes if (s + e) % 2 else bytearray, origin)
     ctx.hyp('boundary', st.tuples(st.binary(min_size=24, max_size=24), st.binary(min_size=4, max_size=4)),
             body, max_examples=3 if ctx.quick else 12)
@@ -216,7 +239,7 @@ def part_boundary(ctx):
             k += 1
             prior = expand(b'rom%d' % k, 24)
             one_case(ctx, prior, s, expand(b'romdata%d' % k, n), bytes if k % 2 else bytearray,
-                     ORIGINS[k % 4] if k % 3 == 0 else 'inplace')
+                     ORIGINS[k % 5] if k % 3 == 0 else 'inplace')
 
 
 @st.composite
@@ -244,7 +267,7 @@ def random_write(draw):
 def part_random(ctx):
     def body(v):
         prior_seed, (s, n, dseed) = v
-        one_case(ctx, prior_seed, s, expand(dseed, n), origin=ORIGINS[dseed[1] % 4] if dseed[0] % 3 == 0 else 'inplace')
+        one_case(ctx, prior_seed, s, expand(dseed, n), origin=ORIGINS[dseed[1] % 5] if dseed[0] % 3 == 0 else 'inplace')
     ctx.hyp('random', st.tuples(st.binary(min_size=24, max_size=24), random_write()), body,
             max_examples=400 if ctx.quick else 3000)
 
@@ -350,7 +373,7 @@ def replay(case):
 def vacuity(total, tier):
     msgs = []
     for lab in ('starts_on_boundary', 'ends_on_boundary', 'spans_regions', 'overflow', 'origin_from_p8', 'origin_from_png',
-                'origin_replaced', 'section_replaced', 'data_is_region_buffer'):
+                'origin_replaced', 'origin_from_p8_empty_sections', 'section_replaced', 'data_is_region_buffer'):
         if total.classes.get(lab, 0) < 20:
             msgs.append('class %s seen only %d times' % (lab, total.classes.get(lab, 0)))
     return msgs
